@@ -831,7 +831,15 @@ pub fn run_l1(scn: &C10Scenario, stats: &mut RunStats) -> Vec<Violation> {
                                     let mirror = if opts.output.is_none() { None } else { mirror };
                                     tree.add_source(Path::new(path), mirror.map(Into::into));
                                 } else {
+                                    // not a source below the input directory (a module
+                                    // elsewhere, a data file, or the single input file
+                                    // itself, whose output path only `collect_work` knows)
                                     tree.source_changed(Path::new(path));
+                                    if *path == input {
+                                        if let Ok(options) = exec::build_options(&opts) {
+                                            let _ = tree.collect_work(&resources, &options);
+                                        }
+                                    }
                                 }
                             } else {
                                 // what `process_events` does for a Create event
